@@ -29,7 +29,7 @@ STATEMENT = {
     "C01": {"panic", "FAIL"}, "C02": {"FAIL", "panic"}, "C03": {"FAIL", "panic", "events"},
     "C04": {"spec", "panic"}, "C05": {"spec", "panic"}, "C06": {"spec", "panic"}, "C07": {"spec", "panic"},
     "C08": {"spec", "panic"}, "C09": {"wf", "panic", "FAIL"}, "C10": {"display", "display-impure", "panic", "FAIL"},
-    "C11": {"FAIL", "panic", "events"}, "C12": {"spec", "dirty", "panic"}, "C13": {"spec", "panic"}, "C14": {"spec", "panic"},
+    "C11": {"FAIL", "panic", "events"}, "C12": {"spec", "dirty", "panic", "events"}, "C13": {"spec", "panic"}, "C14": {"spec", "panic"},
     "C15": {"spec", "dirty", "panic", "FAIL"}, "C16": {"spec", "dirty", "wf", "panic"}, "C17": {"dirty", "panic"},
     "C18": {"spec", "panic"}, "C19": {"FAIL", "panic", "events"}, "C20": {"spec", "panic", "FAIL"},
 }
